@@ -134,33 +134,33 @@ func rang(left, right string) (string, error) {
 	if err == nil {
 		if rawMin == "'*'" {
 			if inclusive {
-				return fmt.Sprintf("%s <= %.2f", left, fMax), nil
+				return fmt.Sprintf("%s <= %s", left, formatFloat(fMax)), nil
 			}
-			return fmt.Sprintf("%s < %.2f", left, fMax), nil
+			return fmt.Sprintf("%s < %s", left, formatFloat(fMax)), nil
 		}
 
 		if rawMax == "'*'" {
 			if inclusive {
-				return fmt.Sprintf("%s >= %.2f", left, fMin), nil
+				return fmt.Sprintf("%s >= %s", left, formatFloat(fMin)), nil
 			}
-			return fmt.Sprintf("%s > %.2f", left, fMin), nil
+			return fmt.Sprintf("%s > %s", left, formatFloat(fMin)), nil
 		}
 
 		if inclusive {
-			return fmt.Sprintf("%s >= %.2f AND %s <= %.2f",
+			return fmt.Sprintf("%s >= %s AND %s <= %s",
 					left,
-					fMin,
+					formatFloat(fMin),
 					left,
-					fMax,
+					formatFloat(fMax),
 				),
 				nil
 		}
 
-		return fmt.Sprintf("%s > %.2f AND %s < %.2f",
+		return fmt.Sprintf("%s > %s AND %s < %s",
 				left,
-				fMin,
+				formatFloat(fMin),
 				left,
-				fMax,
+				formatFloat(fMax),
 			),
 			nil
 	}
@@ -274,33 +274,33 @@ func rangParam(left, right string, params []any) (string, error) {
 	if err == nil {
 		if rawMin == "'*'" {
 			if inclusive {
-				return fmt.Sprintf("%s <= %.2f", left, fMax), nil
+				return fmt.Sprintf("%s <= %s", left, formatFloat(fMax)), nil
 			}
-			return fmt.Sprintf("%s < %.2f", left, fMax), nil
+			return fmt.Sprintf("%s < %s", left, formatFloat(fMax)), nil
 		}
 
 		if rawMax == "'*'" {
 			if inclusive {
-				return fmt.Sprintf("%s >= %.2f", left, fMin), nil
+				return fmt.Sprintf("%s >= %s", left, formatFloat(fMin)), nil
 			}
-			return fmt.Sprintf("%s > %.2f", left, fMin), nil
+			return fmt.Sprintf("%s > %s", left, formatFloat(fMin)), nil
 		}
 
 		if inclusive {
-			return fmt.Sprintf("%s >= %.2f AND %s <= %.2f",
+			return fmt.Sprintf("%s >= %s AND %s <= %s",
 					left,
-					fMin,
+					formatFloat(fMin),
 					left,
-					fMax,
+					formatFloat(fMax),
 				),
 				nil
 		}
 
-		return fmt.Sprintf("%s > %.2f AND %s < %.2f",
+		return fmt.Sprintf("%s > %s AND %s < %s",
 				left,
-				fMin,
+				formatFloat(fMin),
 				left,
-				fMax,
+				formatFloat(fMax),
 			),
 			nil
 	}
@@ -351,4 +351,18 @@ func toFloats(rawMin, rawMax string) (fMin, fMax float64, err error) {
 	}
 
 	return fMin, fMax, nil
+}
+
+// formatFloat renders a float with at least two decimal places and as many more as are
+// needed to keep its value.
+func formatFloat(f float64) string {
+	s := strconv.FormatFloat(f, 'f', -1, 64)
+	dot := strings.IndexByte(s, '.')
+	if dot < 0 {
+		return s + ".00"
+	}
+	if len(s)-dot-1 < 2 {
+		return s + "0"
+	}
+	return s
 }
